@@ -30,6 +30,18 @@ CLAIMED = {
    technique="Lean 4 proof: Progress of the RFBClient model => the dispatch loop terminates with at most 2*bytes+1 handler calls for every byte string and chunking; total Lean functions for handler-internal loops + budgeted differential correspondence on hostile streams",
    text="Lean theorems: rfb_progress (every zero-length expectation - empty reason, empty name, empty clipboard text, zero colours, zero-area rectangles, zero sub-rectangles, empty compressed block, zero-size cursor - is followed by a halt or a state that needs at least one byte), C15_no_spin / C15_no_spin_all (no fuel exhaustion for any state, chunk, chunk list), C15_steps_linear (<= 2*bytes+1 handler invocations per dataReceived), C15_dead_stays (nothing is parsed after a close) and the named zero-length corollaries; handler-internal loops are total structural recursions in the model. Correspondence: grammar-derived streams with length/count fields set to 0/1/max, truncations, mutations, random tails and hostile ZRLE blocks run on the real clients under a call-count budget (sys.setprofile) and a wall-clock alarm; a spin or super-linear call count is a violation with the stream as replay.",
    note="Trusted: Lean kernel + standard axioms; zlib expansion and Pillow canvas allocation are outside the property (MemoryError cases are counted and skipped)."),
+ "C03": dict(engine="Rfb", design_ref="DESIGN.md section 8 C03",
+   technique="Lean 4 proof: version selection for all banners, security-type choice, step invariants (success only after security succeeded; close is final) and whole-conversation theorems through the dispatch loop (big-step Runs) + reactive scripted-server correspondence, all 10^6 banners exhaustively in the thorough tier",
+   text="Lean theorems over the handshake states of the RFBClient model with the version/auth tables regenerated from source: C03_version (for every banner the reply is the highest of 3.3/3.7/3.8 not above the server's, nothing below 3.3), C03_sectype/C03_sectype_chosen (only an offered and supported type, the largest; else close with nothing written), C03_clientinit_sources and C03_made_only_after_serverinit (ClientInit and 'established' only after security succeeded under the version's rules), C03_close_final (every failure ends the session), C03_result (every SecurityResult code x version), C03_reason (any reason length incl. zero), C03_no_password (three client classes), and whole conversations through the real dispatch loop for symbolic reasons: C03_refused_33, C03_failed_38, C03_none_37, C03_none_38; chunking independence from C01_seg_indep. Correspondence: a scripted RFC 6143 server (reactive and pre-concatenated) against the three real client classes; the client's transcript is compared with the RFC transcript and with the model.",
+   note="Trusted: Lean kernel + standard axioms; DES response / ARD reply are parameters (C14); prompts patched. Hypothesis: reactive server for the no-password path (named exactly by C03_close_final)."),
+ "C12": dict(engine="Client", design_ref="DESIGN.md section 8 C12",
+   technique="Lean 4 proof: refinement of the screen model (Pillow images as exact pixel functions) to a reference canvas, by induction over arbitrary callback histories + pixel-exact differential correspondence with the real client and Pillow",
+   text="Lean theorems: C12_refines - after any history of rectangle updates and desktop-size changes (and cursor-shape updates under the no-cursor option) the model's screen has the size and, at every position, the pixel of the reference canvas (latest write wins, never-sent pixels black, a resize sets the size exactly and forgets what no longer fits); the property's clauses separately: C12_update_pixels (nothing outside the rectangle changes), C12_growth (growing preserves earlier content, new area black), C12_first (first rectangle anywhere), C12_resize, C12_nocursor. Correspondence: random callback histories on a real VNCDoToolClient in each of the five image modes and the three cursor options; size and all pixels compared with the reference canvas and with the Lean model.",
+   note="Trusted: Lean kernel + standard axioms; Pillow (frombytes raw modes, new, paste with clipping and 1-bit masks) modelled as exact pixel functions; canvas allocation (memory) not modelled. C12_refines assumes no cursor shape is being composited (the local-cursor feature is covered by the model correspondence only)."),
+ "C13": dict(engine="Rfb", design_ref="DESIGN.md section 8 C13",
+   technique="Lean 4 proof over tables regenerated from source: bit-level channel mapping of every accepted format, accept-or-announce for every pixel-format block, advertised encodings for all option combinations + differential correspondence with rendered probe pixels",
+   text="Lean theorems with PF2IM / RGB32 / BGR16 / SUPPORTED_ENCODINGS / factory defaults extracted from the source on this run: C13_modes (for every accepted format and every pixel value the raw mode the client renders with yields exactly the RFC's red/green/blue channels), C13_mode_size (rendering and framing use the same pixel size), C13_accept_or_set and C13_in_force (any native format the client can render is kept, anything else is replaced by an announced RGB32 / BGR16-for-3.889, and the format the client interprets data in changes only together with the SetPixelFormat it writes), C13_pf_stable (no later state changes it), C13_encodings / C13_only_supported / C13_numbers / C13_defaults (the advertised list is exactly preferred + the pseudo-encodings the options ask for, all decodable). Correspondence: random 16-byte blocks x versions x 32 option combinations x preferred encodings on the real library/CLI clients, writes after ServerInit and rendered probe pixels compared with the RFC and the model; BGR16 exhaustively (65536 values) in the thorough tier.",
+   note="Trusted: Lean kernel + standard axioms; Pillow raw modes as exact pixel functions (compared on probes). Hypothesis: the preferred encoding is a real encoding with a decoder."),
 }
 
 def main():
@@ -64,8 +76,8 @@ def main():
         "engines": [
             {"name": "Expect", "path": "lean/VncModel/Expect.lean", "serves_properties": ["C01", "C15", "C16", "C17"], "kind_free_text": "generic buffering machine + segmentation theorems (Lean)"},
             {"name": "Script", "path": "lean/VncModel/Address.lean", "serves_properties": ["C20"], "kind_free_text": "pure functions of command.py (Lean model + theorems)"},
-            {"name": "Rfb", "path": "lean/VncModel/Rfb.lean", "serves_properties": ["C01", "C15"], "kind_free_text": "RFBClient receive path: every _handle* state as an instance of the buffering machine (Lean model + theorems)"},
-            {"name": "Client", "path": "lean/VncModel/Keys.lean", "serves_properties": ["C04", "C05", "C19"], "kind_free_text": "VNCDoToolClient key / pointer operations and serialisers (Lean model + theorems)"},
+            {"name": "Rfb", "path": "lean/VncModel/Rfb.lean", "serves_properties": ["C01", "C03", "C13", "C15"], "kind_free_text": "RFBClient receive path: every _handle* state as an instance of the buffering machine (Lean model + theorems)"},
+            {"name": "Client", "path": "lean/VncModel/Keys.lean", "serves_properties": ["C04", "C05", "C12", "C19"], "kind_free_text": "VNCDoToolClient key / pointer operations and serialisers (Lean model + theorems)"},
             {"name": "harness", "path": "harness/", "serves_properties": sorted(CLAIMED), "kind_free_text": "Python: implementation drivers, generators, correspondence with the Lean driver (lean/Driver/Main.lean), spec oracles"},
         ],
         "checks": checks,
